@@ -61,7 +61,7 @@ PROPS = {
                  "own hardware address (silent_and_unchanged); NAK when not bound (nak_when_not_bound); the panic of handleRequest unreachable "
                  "(desired_ne_none) — Lean theorems for every database state and oracle, tied to frames by handle_eq_handleV; exhaustive "
                  "correspondence of the full request matrix (5 760 cells, each against a fresh real server with follow-up probes).",
-        "props": ["C04"],
+        "props": ["C04", "C02Code"],
         "streams": [{"test": "TestReqMatrix", "names": ["reqmatrix"], "timeout": 300}, {"test": "TestSrvSeq", "names": ["srvseq"], "timeout": 300}],
         "rule": "EXHAUSTIVE matrix: sender binding {none, pending offer, lease, static, expired} x identity {hw, client id, short id, server MAC} x "
                 "IP destination {broadcast, server, other} x server identifier {none, this, other, 3 bytes} x requested address {none, bound, "
@@ -93,7 +93,7 @@ PROPS = {
                  "verifying (lease_reply_wire, nak_reply_wire, composed from the C12/C13 round trips); at most one reply per handler "
                  "(at_most_one_reply, done_is_final) — Lean theorems; byte-exact comparison of every frame in all server streams and an independent "
                  "decoder as monitor.",
-        "props": ["C06", "C13Code"],
+        "props": ["C06", "C13Code", "C06Code"],
         "streams": [{"test": "TestSrvSeq", "names": ["srvseq"], "timeout": 300}, {"test": "TestReqMatrix", "names": ["reqmatrix"], "timeout": 300}],
         "rule": "every reply frame of the C01 scripts and of the request matrix (xid, all 16 flag bits in 5% of the messages, hardware-address lengths "
                 "0..16, pads, trailing bytes); non-trivial = answered",
@@ -105,7 +105,7 @@ PROPS = {
                  "specifies (options_spec), decoding to the configured values (options_decoded), identical in OFFER and ACK (offer_ack_agree), and "
                  "the advertised whole seconds are within one second of what the ACK's update reserves (advertised_is_reserved) — Lean theorems; "
                  "correspondence over every subset of global x per-client settings x list lengths, checked by the monitor's own reading of the config.",
-        "props": ["C07"],
+        "props": ["C07", "C12Code"],
         "streams": [{"test": "TestCfgOptions", "names": ["cfgopts"], "timeout": 300}, {"test": "TestCfgNew", "names": ["cfgnew"], "timeout": 300},
                     {"test": "TestSrvSeq", "names": ["srvseq"], "timeout": 300}, {"test": "TestSrvConc", "names": ["srvconc"], "timeout": 300}],
         "rule": "the server scripts of C01 (advertised lease time = time the address stays reserved: nobody else is given the address, and the holder is not refused, "
@@ -121,7 +121,7 @@ PROPS = {
                  "REQUEST whose probe met a foreign answer is never acknowledged and is NAKed (conflict_never_acked, conflict_naked); an offered "
                  "address was probed free in the very search (offered_was_probed_free) — Lean theorems; the real arpping.Ping against injected frame "
                  "lists, responders on the pools of the server scripts, and restarts with leaseholders still answering.",
-        "props": ["C08"],
+        "props": ["C08", "C13Code"],
         "streams": [{"test": "TestArp", "names": ["arp"], "timeout": 300}, {"test": "TestSrvSeq", "names": ["srvseq"], "timeout": 300}],
         "rule": "Ping against 0-4 injected frames (valid answers, wrong sender address, requests, short, padded to 46 bytes, random); restart scripts: 1-4 "
                 "hosts lease, the server is rebuilt empty, the holders answer ARP, 1-3 newcomers DISCOVER (half of them asking for an address in use); "
@@ -227,7 +227,7 @@ PROPS = {
                  "pattern of its state, ports 68->67, valid checksums, hardware address, derived client identifier (template_wire); retransmission "
                  "spacing >= 700 ms and non-decreasing for every random stream (retransmit_delays) — Lean theorems; byte-exact correspondence with "
                  "msgtmpl and observed schedules of the real sendMessage under a virtual clock.",
-        "props": ["C16", "C13Code"],
+        "props": ["C16", "C13Code", "C16Code"],
         "streams": [{"test": "TestCliTmpl", "names": ["clitmpl"], "timeout": 600}],
         "rule": "random hardware addresses (1..16 bytes), offered/server addresses incl. 0.0.0.0 and broadcast, all four states, two transmissions per "
                 "exchange; real sendMessage runs of 10 s .. 45 min virtual time whose inter-frame gaps are checked against the model's admissible "
